@@ -242,6 +242,15 @@ reg(
   "Reference is MJWarp's non-compacted solve (5e-4 all-active, 3e-2 awake sub-problems; worlds with reference residual > 2e-3 or ITERATIONS are skipped and counted); sleeping sets are written via tree_asleep cycles + update_sleep; Newton only.",
 )
 
+reg(
+  "C17",
+  "structure-aware fuzzing (Hypothesis-generated models, capacities and call programs) under Warp's bounds-checked debug build with process-level crash detection",
+  "Random models from the wide grammar (box/mesh/ellipsoid/cylinder contacts, every constraint kind, tendons, actuators with dynamics/delays, mocap, sleeping with and without islands) x solver/cone/jacobian/integrator "
+  "x capacities from {0, 1, tiny, measured need -1/0/+1, ample} for nconmax/naconmax, njmax, njmax_nnz, nvmax, nccdmax x 1-3 worlds x programs of 2-6 public calls (step, forward, step1/step2, inverse, stage functions, "
+  "reset_data with masks, get_data_into, contact_force, get/set_state): every array access is asserted in range; the worker must survive and no simulation function may raise.",
+  "Warp debug mode does not trap negative indices >= -shape; NaN-free inputs; numerical blow-up is not judged; exceptions from put_model/make_data are clean rejections; CPU device.",
+)
+
 NOT_APPLICABLE = {}
 
 
